@@ -453,7 +453,7 @@ def r8_cfg(body: Text):
 
 
 def r8_attrs_docs(text: Text):
-    text.sub_code('R8', r'#\[(?:derive|allow|inline|doc|non_exhaustive|must_use|pin_project|pin|deprecated)[^\]]*\]\s*', '')
+    text.sub_code('R8', r'#\[(?:derive|allow|inline|doc|non_exhaustive|must_use|pin_project|pin|deprecated|default)[^\]]*\]\s*', '')
     # doc comments are not code per mask: remove them by line
     while True:
         m = re.search(r'^[ \t]*///[^\n]*\n', text.t, re.M)
@@ -823,6 +823,22 @@ def r5_mut_self(sig: Text, body: Text):
     return True
 
 
+def r5_mut_params_async(sig: Text, body: Text):
+    """R5 for `async fn`: a by-value `mut x: T` parameter becomes `x: T` + `let mut x = x;` (this Verus loses the `mut` of
+    parameters of async fns)"""
+    if not re.search(r'\basync\s+fn\b', sig.t):
+        return False
+    names = re.findall(r'[(,]\s*mut\s+([a-z_]\w*)\s*:', sig.t)
+    names = [n for n in names if n != 'self']
+    if not names:
+        return False
+    for n in names:
+        sig.sub_code('R5', r'\bmut\s+%s\s*:' % n, '%s:' % n)
+    p = body.t.find('{')
+    body.edit('R5', p + 1, p + 1, ''.join('\n        let mut %s = %s;' % (n, n) for n in names))
+    return True
+
+
 # --------------------------------------------------------------------------------------
 # unit assembly
 
@@ -962,6 +978,7 @@ class Unit:
         r6_pin_receiver(sig)
         sig.sub_code('R7', r'^\s*pub(\(crate\))?\s+', lambda m: m.group(0)[:len(m.group(0)) - len(m.group(0).lstrip())])
         r5_mut_self(sig, body)
+        r5_mut_params_async(sig, body)
         r1_name_result(sig)
         r8_cfg(body)
         r4_closure_underscore(body)
